@@ -1,2 +1,3 @@
+pub mod devices;
 pub mod isa;
 pub mod llvm;
